@@ -1,0 +1,7 @@
+//go:build !verif
+
+package tcpreader
+
+// No-op variant of the simulation hook (see verif_on.go, -tags verif).
+
+func verifPoint(site int) {}
